@@ -3,7 +3,8 @@ From Coq Require Import ZArith List Bool.
 From HV Require Import Prelude.Py Prelude.State Prelude.Utf8 Spec.DynTable Spec.SDecoder.
 From HV Require Import Model.Data Model.Table Model.Decoder Model.Encoder Model.Rel Model.RelEnc.
 From HV Require Import Model.Histories.
-From HV Require Import Proofs.Table Proofs.DecoderRefine Proofs.EncoderMeaning Proofs.Lockstep.
+From HV Require Import Model.Api.
+From HV Require Import Proofs.Table Proofs.DecoderRefine Proofs.EncoderMeaning Proofs.Lockstep Proofs.ApiRoundTrip.
 Import ListNotations.
 Open Scope Z_scope.
 
@@ -30,5 +31,18 @@ Theorem C01_block : forall e d hs huff raw,
     map nv_of_header hs' = map nv_of_field hs.
 Proof. exact block_round_trip. Qed.
 
+(** ... and at the level of the public API: whatever form the application uses (text or bytes,
+    tuples of either arity, header-tuple classes, list, iterator or dict), the peer decodes the
+    canonical sequence [canon c] of the argument (C18) *)
+Theorem C01_api_block : forall e d c huff raw,
+  TInv e.(e_tab) -> dec_ok d -> Sync e (ctx_of d) -> ctx_sane (ctx_of d) ->
+  Forall field_sane (canon c) -> fields_size (canon c) <= d.(d_max_list) ->
+  (raw = false -> Forall (fun f => utf8_valid (fst (fst f)) = true /\ utf8_valid (snd (fst f)) = true) (canon c)) ->
+  exists w e' hs' d',
+    Encoder_encode_api e c huff = (Ok w, e') /\ Decoder_decode d w raw = (Ok hs', d') /\
+    map nv_of_header hs' = map nv_of_field (canon c).
+Proof. exact api_block_round_trip. Qed.
+
 Print Assumptions C01_round_trip.
 Print Assumptions C01_block.
+Print Assumptions C01_api_block.
